@@ -4,6 +4,10 @@
  T1 black reformat (line length 140)      T2 ast.unparse round trip (comments dropped, quotes normalised)
  T3 rename every local variable           T4 a log.debug(...) line after every simple statement of pool.py
  T5 docstrings removed and `pass`-free    T6 T2+T3+T4 combined
+ T7 every if/else inverted (`if c: A else: B` -> `if not c: B else: A`)
+ T8 every `return <expr>` via a local (`_r = <expr>; return _r`)
+ T9 every store of a call result into a field/element via a local (`_t = f(); self.x[k] = _t`)
+ T10 T7+T8+T9 combined
 """
 import ast, os, shutil, subprocess, sys, tempfile
 sys.path.insert(0, os.path.dirname(os.path.dirname(os.path.abspath(__file__))))
@@ -67,6 +71,50 @@ class NoDoc(ast.NodeTransformer):
         return node
 
 
+class InvertIf(ast.NodeTransformer):
+    def visit_If(self, node):
+        self.generic_visit(node)
+        if node.orelse and not (len(node.orelse) == 1 and isinstance(node.orelse[0], ast.If)):
+            t = node.test
+            neg = t.operand if isinstance(t, ast.UnaryOp) and isinstance(t.op, ast.Not) else ast.UnaryOp(op=ast.Not(), operand=t)
+            node.test, node.body, node.orelse = neg, node.orelse, node.body
+        return node
+
+
+class _Blocks(ast.NodeTransformer):
+    """rewrites statement lists of function bodies"""
+    def rewrite(self, st, n):
+        return [st]
+
+    def generic_visit(self, node):
+        super().generic_visit(node)
+        for fld in ("body", "orelse", "finalbody"):
+            b = getattr(node, fld, None)
+            if isinstance(b, list) and b and isinstance(b[0], ast.stmt) and not isinstance(node, (ast.Module, ast.ClassDef)):
+                out = []
+                for st in b:
+                    self.n = getattr(self, "n", 0) + 1
+                    out += self.rewrite(st, self.n)
+                setattr(node, fld, out)
+        return node
+
+
+class ReturnViaLocal(_Blocks):
+    def rewrite(self, st, n):
+        if isinstance(st, ast.Return) and st.value is not None and not isinstance(st.value, (ast.Constant, ast.Name)):
+            nm = f"_r{n}"
+            return [ast.Assign(targets=[ast.Name(id=nm, ctx=ast.Store())], value=st.value), ast.Return(value=ast.Name(id=nm, ctx=ast.Load()))]
+        return [st]
+
+
+class StoreViaLocal(_Blocks):
+    def rewrite(self, st, n):
+        if isinstance(st, ast.Assign) and len(st.targets) == 1 and isinstance(st.targets[0], (ast.Subscript, ast.Attribute)) and isinstance(st.value, (ast.Call, ast.Await)):
+            nm = f"_t{n}"
+            return [ast.Assign(targets=[ast.Name(id=nm, ctx=ast.Store())], value=st.value), ast.Assign(targets=st.targets, value=ast.Name(id=nm, ctx=ast.Load()))]
+        return [st]
+
+
 def transform(root, which):
     for p in files(root):
         src = open(p).read()
@@ -79,6 +127,12 @@ def transform(root, which):
             tree = Logger().visit(tree)
         if which == "T5":
             tree = NoDoc().visit(tree)
+        if which in ("T7", "T10"):
+            tree = InvertIf().visit(tree)
+        if which in ("T8", "T10"):
+            tree = ReturnViaLocal().visit(tree)
+        if which in ("T9", "T10"):
+            tree = StoreViaLocal().visit(tree)
         ast.fix_missing_locations(tree)
         out = ast.unparse(tree)
         compile(out, p, "exec")
@@ -89,7 +143,7 @@ def transform(root, which):
 
 def main():
     bad = 0
-    for which in sys.argv[1:] or ["T1", "T2", "T3", "T4", "T5", "T6"]:
+    for which in sys.argv[1:] or ["T1", "T2", "T3", "T4", "T5", "T6", "T7", "T8", "T9", "T10"]:
         tmp = tempfile.mkdtemp(prefix="tpsa-preserve-")
         try:
             shutil.copytree("/repo/src", os.path.join(tmp, "src"), ignore=shutil.ignore_patterns("__pycache__", "*.egg-info"))
